@@ -51,28 +51,43 @@ Lemma drained s0 h : Inv s0 ->
 Proof. intro I. pose proof (inv_hrun h s0 I) as I'. split; [apply (i_holds _ (i_core _ I')) | apply (i_pend _ I')]. Qed.
 
 Lemma not_early s0 h f x : Inv s0 ->
+  all_states (fun t => cur t <= f) s0 h ->
   let s := hrun s0 h in
-  cur s <= f ->
   (In (f, x) (q_und s0) -> In (f, x) (q_und s) /\ 1 <= holds s x) /\
   (In (f, x) (q_opt s0) -> In (f, x) (q_opt s) /\ k_rm s x = true) /\
   (In (f, x) (q_prune s0) -> In (f, x) (q_prune s) /\ k_rev s x <> None).
 Proof.
-  intros I s Hc. destruct (hrun_keeps h s0 I) as (A1 & A2 & A3). fold s in A1, A2, A3.
+  intros I Hall s. destruct (hrun_keeps h s0 f I Hall) as (A1 & A2 & A3). fold s in A1, A2, A3.
   pose proof (inv_hrun h s0 I) as I'. fold s in I'. pose proof (i_core s I') as C.
   repeat split.
-  - apply (A3 (f, x)); [assumption | simpl; lia].
-  - assert (Hin : In (f, x) (q_und s)) by (apply (A3 (f, x)); [assumption | simpl; lia]).
+  - apply A3; assumption.
+  - assert (Hin : In (f, x) (q_und s)) by (apply A3; assumption).
     rewrite (i_holds s C x). pose proof (zcount_nonneg x (p_und s)).
     assert (0 < zcount x (map snd (q_und s))); [|lia].
     clear - Hin. induction (q_und s) as [|[g y] q IH]; [contradiction|]. simpl. rewrite zcount_cons.
     pose proof (zcount_nonneg x (map snd q)). destruct Hin as [Hin|Hin].
     + inversion Hin. subst. rewrite Z.eqb_refl. lia.
     + specialize (IH Hin). destruct (x =? y); lia.
-  - apply (A1 (f, x)); [assumption | simpl; lia].
-  - apply (i_qopt s C f x). apply (A1 (f, x)); [assumption | simpl; lia].
-  - apply (A2 (f, x)); [assumption | simpl; lia].
-  - assert (Hin : In (f, x) (q_prune s)) by (apply (A2 (f, x)); [assumption | simpl; lia]).
+  - apply A1; assumption.
+  - apply (i_qopt s C f x). apply A1; assumption.
+  - apply A2; assumption.
+  - assert (Hin : In (f, x) (q_prune s)) by (apply A2; assumption).
     apply (i_prune s C x). apply in_app_iff. left. apply in_map_iff. exists (f, x). tauto.
+Qed.
+
+(* exchanging the epoch clock (EpochIdentifier) is refused while anything is scheduled or pending, so no entry can be
+   stranded or delayed by it *)
+Lemma clock_change_guarded s c :
+  (nothing_scheduled s = false -> step s (SetClock c) = (s, ROk)) /\
+  (nothing_scheduled s = true ->
+     let s' := fst (step s (SetClock c)) in
+     cur s' = c /\ q_opt s' = [] /\ q_prune s' = [] /\ q_und s' = [] /\ p_opt s' = [] /\ p_prune s' = [] /\ p_und s' = [] /\
+     holds s' = holds s /\ k_rev s' = k_rev s /\ k_rm s' = k_rm s).
+Proof.
+  simpl. split; intro H; rewrite H; [reflexivity|]. simpl. unfold nothing_scheduled in H.
+  destruct (q_opt s); [|discriminate]. destruct (q_prune s); [|discriminate]. destruct (q_und s); [|discriminate].
+  destruct (p_opt s); [|discriminate]. destruct (p_prune s); [|discriminate]. destruct (p_und s); [|discriminate].
+  repeat split; reflexivity.
 Qed.
 
 (* the block whose BeginBlock closes epoch [cur s] moves exactly queue(cur s) to the pending lists *)
